@@ -183,3 +183,21 @@ func buildForkChain(w *World) *Scenario {
 	sc.Side2 = add("t", 0x71, sc.BySlot[39], 41, 42)
 	return sc
 }
+
+// buildSparseChain: blocks at the given slots, one after another on the genesis block.
+func buildSparseChain(w *World, slots ...common.Slot) *Scenario {
+	sc := &Scenario{W: w, BySlot: map[common.Slot]*Node{}, Special: map[string]common.ValidatorIndex{}}
+	tip := w.Genesis
+	sc.Main = append(sc.Main, tip)
+	sc.BySlot[0] = tip
+	for _, slot := range slots {
+		n := w.AddBlock(fmt.Sprintf("m%d", slot), tip, slot, BlockOps{})
+		if n == nil {
+			panic("sparse chain: no slashings here")
+		}
+		tip = n
+		sc.Main = append(sc.Main, n)
+		sc.BySlot[slot] = n
+	}
+	return sc
+}
